@@ -1,6 +1,7 @@
 package util
 
 import (
+	"strconv"
 	"strings"
 
 	"github.com/jotaen/klog/klog/app"
@@ -60,11 +61,54 @@ func ZZ_C10_ErrPos() {
 			}
 		}
 	}
+	zzCheckErrorRenderings(errs)
+}
+
+// zzCheckErrorRenderings: the terminal and JSON renderings of errs.
+func zzCheckErrorRenderings(errs []txt.Error) {
 	// renderings
 	out := PrettifyParsingError(app.NewParserErrors(errs), tf.NewStyler(tf.COLOUR_THEME_NO_COLOUR)).Error()
 	zz.Assert(strings.Count(out, "[SYNTAX ERROR]") == len(errs), "terminal-rendering-lists-every-error")
+	// the terminal rendering quotes exactly the faulty line (tabs shown as spaces) and puts
+	// `Length` carets under column `Position`; built here without fmt
+	want := ""
+	for _, e := range errs {
+		quoted := ""
+		lt := e.LineText()
+		for i := 0; i < len(lt); i++ {
+			if lt[i] == '\t' {
+				quoted += " "
+			} else {
+				quoted += lt[i : i+1]
+			}
+		}
+		want += "\n[SYNTAX ERROR] in line " + strconv.Itoa(e.LineNumber()) + "\n"
+		want += "    " + quoted + "\n"
+		want += "    " + strings.Repeat(" ", e.Position()) + strings.Repeat("^", e.Length()) + "\n"
+		want += Reflower.Reflow(e.Message(), []string{"    "}) + "\n"
+	}
+	zz.Assert(out == want, "terminal-rendering-shows-line-and-carets-at-the-reported-position")
 	// the JSON rendering: the emitted text, read by the reference JSON reader, carries the same positions and messages
 	zzCheckJSON(json.ToJson(nil, errs, false), nil, errs)
+}
+
+// ZZ_C10_FaultyLine: a malformed entry line whose rest is n ARBITRARY bytes (no line
+// break): one error, on that line, quoted verbatim in both renderings.
+func ZZ_C10_FaultyLine() {
+	rest := zz.String("rest", zz.Param("n"))
+	for i := 0; i < len(rest); i++ {
+		zz.Assume(zz.And(rest[i] != '\n', rest[i] != '\r'))
+	}
+	line := "    2h3 " + rest
+	text := "2020-01-01\n" + line + "\n"
+	_, _, errs := parser.NewSerialParser().Parse(text)
+	zz.Assert(len(errs) == 1, "one-faulty-line-one-error")
+	if len(errs) != 1 {
+		return
+	}
+	zz.Assert(errs[0].LineNumber() == 2 && errs[0].LineText() == line, "error-quotes-its-line")
+	zz.Assert(errs[0].Position() == 4 && errs[0].Length() == 3, "first-error-on-the-faulty-line")
+	zzCheckErrorRenderings(errs)
 }
 
 var _ txt.Error
